@@ -639,6 +639,11 @@ func (m *RpcServer) ControlEnvironment(cxt context.Context, req *pb.ControlEnvir
 			Errorf("transition '%s' failed, transitioning into ERROR.", req.GetType().String())
 		transitionErr := err // the request has failed, no matter how the environment gets to ERROR
 		err = env.TryTransition(environment.NewGoErrorTransition(m.state.taskman))
+		if err != nil && env.CurrentState() == "DONE" {
+			// The environment was torn down while this request was waiting for its turn:
+			// DONE is terminal, there is nothing to force into ERROR.
+			err = nil
+		}
 		if err != nil {
 			log.WithField("partition", env.Id()).Warnf("could not complete requested GO_ERROR transition, forcing move to ERROR: %s", err.Error())
 			env.Sm.SetState("ERROR")
